@@ -5,6 +5,7 @@ owned by the simulator."""
 import math
 import pickle
 import re
+import sys
 
 import numpy
 
@@ -223,10 +224,122 @@ def _attribute_trace(rec, op, executor_mode):
         rec.schedule_sig = ('inprocess',)
 
 
+class AloneServer(object):
+    """the per-sentence reference in a pristine process image: forked right after the world was built, before
+    the first call of the session, it answers every request from a fresh fork of itself.  Whatever the calls of
+    the session leave behind in the process (module-level memos of the grammar functions, C++ statics, interned
+    tables) cannot reach a reference response."""
+
+    def __init__(self, world):
+        import os
+        self._req_r, self._req_w = os.pipe()
+        self._res_r, self._res_w = os.pipe()
+        self._pid = os.fork()
+        if self._pid == 0:
+            try:
+                os.close(self._req_w)
+                os.close(self._res_r)
+                inp = os.fdopen(self._req_r, 'rb')
+                out = os.fdopen(self._res_w, 'wb')
+                while True:
+                    head = inp.read(4)
+                    if len(head) < 4:
+                        break
+                    sid, cfg = pickle.loads(inp.read(int.from_bytes(head, 'little')))
+                    r, w = os.pipe()
+                    pid = os.fork()
+                    if pid == 0:
+                        try:
+                            os.close(r)
+                            world._alone = {}
+                            world.reference = None
+                            value = alone(world, sid, cfg)
+                            if value[0] == 'ok':
+                                # deep derivations cannot cross a process boundary as pickled Tree objects (the very
+                                # limitation recorded as a finding): ship the flat canonical form and two facts
+                                value = (value[0], value[1], {'placeholder': alone_is_placeholder(value),
+                                                              'depth': alone_depth(value)}, value[3])
+                            sys.setrecursionlimit(200000)
+                            try:
+                                data = pickle.dumps(value)
+                            except Exception as e:  # noqa
+                                import traceback
+                                data = pickle.dumps(('harness', f'{type(e).__name__}: {e}', traceback.format_exc(), None))
+                            with os.fdopen(w, 'wb') as f:
+                                f.write(data)
+                        finally:
+                            os._exit(0)
+                    os.close(w)
+                    with os.fdopen(r, 'rb') as f:
+                        data = f.read()
+                    os.waitpid(pid, 0)
+                    out.write(len(data).to_bytes(4, 'little') + data)
+                    out.flush()
+            finally:
+                os._exit(0)
+        os.close(self._req_r)
+        os.close(self._res_w)
+        self._out = os.fdopen(self._req_w, 'wb')
+        self._inp = os.fdopen(self._res_r, 'rb')
+
+    def alone(self, sid, cfg):
+        data = pickle.dumps((sid, cfg))
+        self._out.write(len(data).to_bytes(4, 'little') + data)
+        self._out.flush()
+        n = int.from_bytes(self._inp.read(4), 'little')
+        if n == 0:
+            return None          # the reference child died (e.g. the code under test crashes alone as well)
+        limit = sys.getrecursionlimit()
+        sys.setrecursionlimit(200000)
+        try:
+            return pickle.loads(self._inp.read(n))
+        finally:
+            sys.setrecursionlimit(limit)
+
+    def close(self):
+        import os
+        try:
+            self._out.close()
+            self._inp.close()
+            os.waitpid(self._pid, 0)
+        except Exception:
+            pass
+
+
+def tree_depth(tree):
+    best, stack = 0, [(tree, 1)]
+    while stack:
+        node, d = stack.pop()
+        best = max(best, d)
+        if not node.is_leaf:
+            stack.extend((c, d + 1) for c in node.children)
+    return best
+
+
+def alone_is_placeholder(a):
+    """a = an 'ok' answer of alone(); its third element is the raw response or, from the reference server, facts about it"""
+    return a[2]['placeholder'] if isinstance(a[2], dict) else refparser.is_placeholder(a[2])
+
+
+def alone_depth(a):
+    if isinstance(a[2], dict):
+        return a[2]['depth']
+    return max([tree_depth(st.tree) for st in a[2]] or [0])
+
+
 def alone(world, sid, cfg):
-    """the per-sentence reference response: the sentence parsed by itself, in
-    process, on a cold cache, with the same configuration"""
+    """the per-sentence reference response: the sentence parsed by itself on a cold cache with the same
+    configuration -- in a pristine process image when the world has a reference server, else in process"""
     key = (sid, cfg_key(cfg))
+    if key not in world._alone and getattr(world, 'reference', None) is not None:
+        value = world.reference.alone(sid, cfg)
+        world.alone_calls += 1
+        if value is not None and value[0] == 'harness':
+            from depsim import env as _env
+            raise _env.HarnessError(f'the reference process could not return its answer: {value[1]}\n{value[2]}')
+        if value is None:
+            value = ('exc', ('ProcessCrash', 'the reference process died while parsing the sentence alone'), None, None)
+        world._alone[key] = value
     if key not in world._alone:
         op = dict(cfg)
         op.update({'op': 'call', 'batch': [sid], 'processes': 1, 'max_chunk_size': 10 ** 6})
